@@ -1,5 +1,17 @@
 """
-eng_layout — engine of properties C17 (allocation layout integrity) and C18 (builders).
+eng_layout — engine of properties C17 (allocation layout integrity) and C18 (builders), and of the
+builder clause of C11 (panic safety: "if an element constructor passed to a slice builder panics
+at any index … an abandoned builder destructs exactly the parts that were initialised").
+
+For C11 the harness runs (`--prop C11`, harness_layout/src/c11.rs) sequences of builder faults on
+ONE arena: a panicking element constructor at every index k = 0 … n-1 and k = n (completes), the
+builder dropped right after `write_header`, `copy_slice` / `copy_str` length mismatches, repeated
+faults — for header / element types with and without destructor, zero-sized and over-aligned.
+Every step is a `builder …` query compared with the Lean builder model as for C18; after every
+caught unwind the arena must still be usable (a following allocation + full collection cycle
+behaves, Gc count / debt unchanged by the abandoned builder, nothing destructed twice — checked
+per step and over the whole history at teardown).  (The collector side of C11 — trace / callback
+faults — is the collector harness of lib/vcheck.py; both run for `./check C11`.)
 
 Tie T1 of DESIGN §C17/§C18: the Rust harness /verif/harness_layout exercises the REAL gc-arena
 crate (path dependency on /repo's working tree, so edits to /repo are picked up by cargo) under
@@ -103,6 +115,7 @@ def run_harness(exe, prop, tier, seed, only=None, tag="run"):
     cases = []
     crashes = []
     global_mon = []
+    notes = []
     config = None
     start = 0
     t = time.time()
@@ -150,6 +163,8 @@ def run_harness(exe, prop, tier, seed, only=None, tag="run"):
                         c.ended = True
                 elif t_ == "C":
                     config = rest
+                elif t_ == "N":
+                    notes.append(rest)
                 elif t_ == "Z":
                     finished = True
         if finished and rc == 0:
@@ -178,6 +193,22 @@ def ask_model(exe, config, cases):
         p = subprocess.run([exe], stdin=f, stdout=subprocess.PIPE, stderr=subprocess.PIPE, text=True, timeout=3000)
     ans = p.stdout.splitlines()
     return p.returncode, ans, p.stderr[-2000:], round(time.time() - t, 1)
+
+
+def ask_model_each(exe, config, cases):
+    """Slow path: one model process per chunk of queries, so that answers stay aligned with queries
+    whatever a single line does to the driver."""
+    out = []
+    CH = 200
+    for i in range(0, len(cases), CH):
+        chunk = cases[i:i + CH]
+        p = subprocess.run([exe], input=config + "\n" + "".join(c.query.replace("\n", " ") + "\n" for c in chunk),
+                           stdout=subprocess.PIPE, stderr=subprocess.PIPE, text=True, timeout=600)
+        a = p.stdout.splitlines()[1:]
+        if len(a) != len(chunk):
+            a = (a + ["model-no-answer"] * len(chunk))[:len(chunk)]
+        out.extend(a)
+    return out
 
 
 _NUM = re.compile(r"\d+")
@@ -256,7 +287,13 @@ def analyse(prop, tier, seed, config, cases, crashes, global_mon, model_ans, tim
     # monitor groups first, then disagreements; biggest first inside each class
     ordered = sorted(groups.items(), key=lambda kv: (kv[1]["kind"] != "monitor", -len(kv[1]["cases"])))
     for k, (sig, g) in enumerate(ordered[:MAX_PROBLEMS]):
-        cs = sorted(g["cases"], key=lambda cm: (len(cm[0].query), cm[0].query))[:MAX_LINES]
+        cs, seen_q = [], set()
+        for cm in sorted(g["cases"], key=lambda cm: (len(cm[0].query), cm[0].query)):
+            if cm[0].query not in seen_q:      # a fault sequence repeats queries on one arena
+                seen_q.add(cm[0].query)
+                cs.append(cm)
+            if len(cs) >= MAX_LINES:
+                break
         c0, m0 = cs[0]
         famname = _family(c0.query)
         if g["kind"] == "monitor":
@@ -277,7 +314,9 @@ def analyse(prop, tier, seed, config, cases, crashes, global_mon, model_ans, tim
             for mm in (c.monitors or [])[:4]:
                 header.append(f"      MONITOR: {mm}")
             lines.append(c.query)
-        name = re.sub(r"[^A-Za-z0-9]+", "-", f"layout-{g['kind']}-{famname}-{k}").strip("-")
+        w0 = c0.query.split()
+        act = ("-" + "-".join(w0[10:12])) if w0 and w0[0] == "builder" and len(w0) > 10 else ""
+        name = re.sub(r"[^A-Za-z0-9]+", "-", f"layout-{g['kind']}-{famname}{act}-{k}").strip("-")
         problems.append(dict(name=name, text=text, failing_input=(g["kind"] == "monitor"), header=header, lines=lines,
                              key=re.sub(r"[^A-Za-z0-9]+", "-", sig)[:80].strip("-").lower()))
     if len(ordered) > MAX_PROBLEMS:
@@ -308,8 +347,142 @@ def analyse(prop, tier, seed, config, cases, crashes, global_mon, model_ans, tim
                 programs=0, disagreements_checked=len(model_ans), summary=summary)
 
 
+# ---------------------------------------------------------------------------------------------
+# coverage guard (fail closed): every `AllocMeta` impl and every allocation entry point of the
+# crate must be known to this engine and exercised by a harness case family
+# ---------------------------------------------------------------------------------------------
+# implementor -> harness case families that allocate THROUGH its `layout()` (None: cannot be named
+# outside the crate; the guard checks that this is still so)
+KNOWN_ALLOCMETA = {
+    "SliceWithHeaderPtrMeta": ("dst-swh", "dst-swh-direct"),
+    "SlicePtrMeta": ("dst-slice-direct",),
+    "StrPtrMeta": ("dst-str-direct",),
+    "UnitPtrMeta": ("sized",),
+    "StaticPtrMeta": None,
+}
+# (file, fn) -> number of definitions: the public functions that lead to `GcPtr::alloc`
+KNOWN_ENTRY_DEFS = {
+    ("gc.rs", "new_with_type_and_ptr_meta"): 1,   # direct cases (`…-direct`, custom metadata cases)
+    ("gc.rs", "new_with_type_meta"): 1,           # `sized` cases via ViaTm / GcBuilder::new
+    ("slice.rs", "new_with_type_meta"): 3,        # swh / slice / str builders via ViaTm / ::new
+}
+KNOWN_ALLOC_CALLERS = {("gc.rs", "new_with_type_and_ptr_meta")}                       # call GcPtr::alloc
+KNOWN_ENTRY_CALLERS = {("gc.rs", "new_with_type_meta"), ("slice.rs", "new_with_type_meta")}  # call the above
+
+
+def _skip_generics(text, i):
+    """text[i] == '<': index just after the matching '>' ('->' is not a bracket)."""
+    depth = 0
+    while i < len(text):
+        ch = text[i]
+        if ch == "<":
+            depth += 1
+        elif ch == ">" and text[i - 1] != "-":
+            depth -= 1
+            if depth == 0:
+                return i + 1
+        i += 1
+    return i
+
+
+def scan_allocmeta_impls(src_dir):
+    """[(file, line, implementor)] of every `impl … AllocMeta<…> for X` (the trait implemented, not a bound)."""
+    found = []
+    for dirpath, _, files in os.walk(src_dir):
+        for fn in sorted(files):
+            if not fn.endswith(".rs"):
+                continue
+            text = open(os.path.join(dirpath, fn), errors="replace").read()
+            text_nc = re.sub(r"//[^\n]*", lambda m: " " * len(m.group(0)), text)
+            for m in re.finditer(r"\bimpl\b", text_nc):
+                i = m.end()
+                while i < len(text_nc) and text_nc[i].isspace():
+                    i += 1
+                if i < len(text_nc) and text_nc[i] == "<":
+                    i = _skip_generics(text_nc, i)
+                m2 = re.match(r"\s*(?:[A-Za-z_][\w]*\s*::\s*)*AllocMeta\s*<", text_nc[i:])
+                if not m2:
+                    continue
+                j = _skip_generics(text_nc, i + m2.end() - 1)
+                m3 = re.match(r"\s*for\s+((?:[A-Za-z_]\w*\s*::\s*)*)([A-Za-z_]\w*)", text_nc[j:])
+                if m3:
+                    found.append((os.path.relpath(os.path.join(dirpath, fn), src_dir), text_nc.count("\n", 0, m.start()) + 1, m3.group(2)))
+    return found
+
+
+def _enclosing_fn(lines, k):
+    for j in range(k, -1, -1):
+        m = re.search(r"\bfn\s+([A-Za-z_]\w*)", lines[j])
+        if m:
+            return m.group(1)
+    return "?"
+
+
+def coverage_guard(prop, fam_nontrivial):
+    """Problems (failing_input False) for anything allocating that this engine does not know."""
+    src = os.path.join(REPO, "src")
+    problems = []
+    info = {}
+
+    def prob(name, text, lines):
+        problems.append(dict(name=re.sub(r"[^A-Za-z0-9]+", "-", name), text=f"{prop}: {text}", failing_input=False,
+                             header=[text, "coverage guard of lib/eng_layout.py (KNOWN_ALLOCMETA / KNOWN_ENTRY_*): teach the harness "
+                                     "(harness_layout/src/c17.rs, a case family allocating through the new impl / entry point) and this table"],
+                             lines=lines))
+    try:
+        impls = scan_allocmeta_impls(src)
+    except OSError as e:
+        prob("layout-guard-unreadable", f"cannot scan {src}: {e!r}", [])
+        return problems, info
+    info["allocmeta_impls"] = [f"{f}:{l} {n}" for f, l, n in impls]
+    if not impls:
+        prob("layout-guard-no-impls", f"no `impl AllocMeta` found under {src}: the scan no longer understands the source", [])
+    for f, l, name in impls:
+        if name not in KNOWN_ALLOCMETA:
+            prob(f"layout-uncovered-allocmeta-{name}", f"uncovered AllocMeta impl `{name}` ({f}:{l}): no harness case family allocates through its layout()", [f"{f}:{l} impl AllocMeta for {name}"])
+        elif KNOWN_ALLOCMETA[name] is None:
+            # must still be unnameable from outside: not re-exported, module private
+            lib = open(os.path.join(src, "lib.rs"), errors="replace").read()
+            mod = os.path.splitext(os.path.basename(f))[0]
+            exported = re.search(r"\bpub\s+use\b[^;]*\b" + re.escape(name) + r"\b", lib, re.S) or re.search(r"\bpub\s+mod\s+" + re.escape(mod) + r"\b", lib)
+            if exported:
+                prob(f"layout-uncovered-allocmeta-{name}", f"uncovered AllocMeta impl `{name}` ({f}:{l}) has become nameable outside the crate; the harness has no case family for it", [f"{f}:{l} impl AllocMeta for {name}"])
+        else:
+            fams = KNOWN_ALLOCMETA[name]
+            missing = [x for x in fams if not fam_nontrivial.get(x)]
+            if missing:
+                prob(f"layout-unexercised-allocmeta-{name}", f"AllocMeta impl `{name}` ({f}:{l}): the harness ran no successful case of famil{'y' if len(missing) == 1 else 'ies'} {missing}", [f"{f}:{l} impl AllocMeta for {name}"])
+    # allocation entry points
+    defs = collections.Counter()
+    alloc_callers, entry_callers = set(), set()
+    for dirpath, _, files in os.walk(src):
+        for fn in sorted(files):
+            if not fn.endswith(".rs"):
+                continue
+            rel = os.path.relpath(os.path.join(dirpath, fn), src)
+            lines = [re.sub(r"//.*", "", x) for x in open(os.path.join(dirpath, fn), errors="replace").read().splitlines()]
+            for k, line in enumerate(lines):
+                m = re.search(r"\bpub\s+(?:unsafe\s+)?fn\s+(new_with_type\w*)", line)
+                if m:
+                    defs[(rel, m.group(1))] += 1
+                    continue
+                if re.search(r"\bGcPtr\s*::\s*(?:<[^;]*?>\s*::\s*)?alloc\b", line):
+                    alloc_callers.add((rel, _enclosing_fn(lines, k)))
+                if re.search(r"\bnew_with_type_and_ptr_meta\b", line):
+                    entry_callers.add((rel, _enclosing_fn(lines, k)))
+    info["entry_defs"] = {f"{a}:{b}": n for (a, b), n in sorted(defs.items())}
+    for key, n in sorted(defs.items()):
+        if KNOWN_ENTRY_DEFS.get(key) != n:
+            prob(f"layout-uncovered-entry-{key[1]}", f"uncovered allocation entry point: {n} definition(s) of `{key[1]}` in {key[0]} (known: {KNOWN_ENTRY_DEFS.get(key, 0)})", [f"{key[0]} fn {key[1]} x{n}"])
+    for key in sorted(alloc_callers - KNOWN_ALLOC_CALLERS):
+        prob(f"layout-uncovered-entry-{key[1]}", f"uncovered allocation entry point: `{key[1]}` in {key[0]} calls GcPtr::alloc", [f"{key[0]} fn {key[1]}"])
+    for key in sorted(entry_callers - KNOWN_ENTRY_CALLERS - KNOWN_ALLOC_CALLERS):
+        prob(f"layout-uncovered-entry-{key[1]}", f"uncovered allocation entry point: `{key[1]}` in {key[0]} calls new_with_type_and_ptr_meta", [f"{key[0]} fn {key[1]}"])
+    return problems, info
+
+
 def _go(prop, tier, seed, only=None, tag="run"):
-    if prop not in ("C17", "C18"):
+    if prop not in ("C17", "C18", "C11"):
         return dict(problems=[dict(name="layout-bad-prop", text=f"eng_layout does not handle {prop}", failing_input=False, header=[], lines=[])])
     timings = {}
     okh, outh, hexe, timings["build_harness"] = build_harness()
@@ -328,15 +501,47 @@ def _go(prop, tier, seed, only=None, tag="run"):
                                    failing_input=False, header=[repr(crashes)[:1500]], lines=[])],
                     evaluations=0, distinct_nontrivial=0, disagreements_checked=0)
     rc, ans, err, timings["model"] = ask_model(mexe, config, cases)
-    if rc != 0 or not ans or ans[0] != "config ok" or len(ans) != len(cases) + 1:
+    extra = []
+    if ans and ans[0] != "config ok":
+        # the header probe of the harness gave something that is not the layout of a Rust type (a
+        # change to the crate disturbed the probe allocations): fall back to "GcHeader = two
+        # words", so that every case is still compared and every monitor result still reported
+        w = (config or "").split()
+        try:
+            word = int(w[4])
+            fallback = f"config {w[1]} {2 * word} {word} {word}"
+        except (IndexError, ValueError):
+            fallback = None
+        extra.append(dict(name="layout-header-probe-rejected",
+                          text=f"{prop}: the model rejected the harness's `{config}` (observed GcHeader layout is not a type layout); comparing against `{fallback}` instead",
+                          failing_input=False, header=[config or "", fallback or ""], lines=[config or ""]))
+        if fallback:
+            config = fallback
+            rc, ans, err, timings["model"] = ask_model(mexe, config, cases)
+    if rc != 0 or not ans or ans[0] != "config ok":
         first = ans[0] if ans else ""
-        return dict(problems=[dict(name="layout-model-protocol",
-                                   text=f"{prop}: layoutmodel rejected the harness output (exit {rc}, first line `{first}`, {len(ans)} answers for {len(cases)} queries): {err[-300:]}",
-                                   failing_input=False, header=[config or ""], lines=[])],
-                    evaluations=len(cases), distinct_nontrivial=0, disagreements_checked=0)
+        extra.append(dict(name="layout-model-protocol",
+                          text=f"{prop}: layoutmodel did not accept the configuration (exit {rc}, first line `{first}`): {err[-300:]}; only the implementation-side monitors are reported",
+                          failing_input=False, header=[config or ""], lines=[]))
+        ans = ["config ?"] + ["model-unavailable"] * len(cases)
+    if len(ans) != len(cases) + 1:
+        extra.append(dict(name="layout-model-misaligned",
+                          text=f"{prop}: layoutmodel gave {len(ans) - 1} answers for {len(cases)} queries; re-asking query by query",
+                          failing_input=False, header=[], lines=[]))
+        ans = ["config ok"] + ask_model_each(mexe, config, cases)
     t = time.time()
     res = analyse(prop, tier, seed, config, cases, crashes, global_mon, ans[1:], timings)
     timings["compare"] = round(time.time() - t, 1)
+    res["problems"] = res["problems"] + extra
+    if prop == "C17" and not only:
+        fam_ok = collections.Counter()
+        for c in cases:
+            if _is_nontrivial(c) and c.ended:
+                fam_ok[_family(c.query)] += 1
+        gp, ginfo = coverage_guard(prop, fam_ok)
+        res["problems"] = res["problems"] + gp
+        for v in res["summary"].values():
+            v["coverage_guard"] = dict(ginfo, problems=len(gp))
     return res
 
 
